@@ -168,18 +168,16 @@ def type_keep(repo):
 
 
 def xsi_guard(repo):
+    """does from_element hand the decision about the registered class to _get_xsi_target?"""
     fn = find_function(_parse(repo, 'spyne/protocol/xml.py'), ['XmlDocument', 'from_element'])
     src = _u(fn)
     for must in ("xsi_type = element.get(XSI_TYPE, None)", "ns = element.nsmap.get(prefix)",
                  "classkey = '{%s}%s' % (ns, objtype)", "newclass = ctx.app.interface.classes.get(classkey, None)",
-                 "cls = newclass", "prefix, objtype = xsi_type.split(':', 1)", "prefix, objtype = (None, xsi_type)"):
+                 "prefix, objtype = xsi_type.split(':', 1)", "prefix, objtype = (None, xsi_type)"):
         if must not in src:
             raise TranslateError('from_element: missing %r' % must)
-    # the statements that follow the registry lookup, in order
     for n in ast.walk(fn):
         if isinstance(n, ast.If) and _u(n.test) == 'xsi_type is not None':
-            texts = [(_u(s.test) if isinstance(s, ast.If) else _u(s)) for s in n.body]
-            core = [t for t in texts if not t.startswith('logger.')]
             for s in n.body:
                 if isinstance(s, ast.If) and _u(s.test) == 'ns is not None':
                     if [_u(x) for x in s.body] != ["classkey = '{%s}%s' % (ns, objtype)"] or \
@@ -188,17 +186,74 @@ def xsi_guard(repo):
                 if isinstance(s, ast.If) and _u(s.test) == 'newclass is None':
                     if _u(s.body[-1]) != 'raise ValidationError(xsi_type)' or s.orelse:
                         raise TranslateError('from_element: an unknown class key is not refused')
+            texts = [(_u(s.test) if isinstance(s, ast.If) else _u(s)) for s in n.body]
+            core = [t for t in texts if not t.startswith('logger.')]
             base = ["':' in xsi_type", 'ns = element.nsmap.get(prefix)', 'ns is not None',
                     'newclass = ctx.app.interface.classes.get(classkey, None)', 'newclass is None']
             if core == base + ['cls = newclass']:
                 return False
-            if core == base + ['not self.issubclass(newclass, cls)', 'cls = newclass']:
-                g = [s for s in n.body if isinstance(s, ast.If) and _u(s.test) == 'not self.issubclass(newclass, cls)'][0]
-                if _u(g.body[-1]) != 'raise ValidationError(xsi_type)' or g.orelse:
-                    raise TranslateError('from_element: the subclass guard does not raise ValidationError')
+            if core == base + ['cls = self._get_xsi_target(cls, newclass, xsi_type)']:
                 return True
             raise TranslateError('from_element: unrecognised xsi:type handling %r' % (core,))
     raise TranslateError('from_element: no xsi:type handling found')
+
+
+XSI_ATOMS = {
+    'sub is sup': 'same_orig',
+    'issubclass(sup, Array)': 'sup_array',
+    '(newclass.get_namespace(), newclass.get_type_name()) != (cls.get_namespace(), cls.get_type_name())': '(negb same_key)',
+    '(newclass.get_namespace(), newclass.get_type_name()) == (cls.get_namespace(), cls.get_type_name())': 'same_key',
+    'issubclass(sup, ComplexModelBase)': 'sup_complex',
+    'issubclass(sub, sup)': 'sub_of',
+}
+
+
+def _bexpr(n):
+    t = _u(n)
+    if t in XSI_ATOMS:
+        return XSI_ATOMS[t]
+    if isinstance(n, ast.BoolOp):
+        op = ' && ' if isinstance(n.op, ast.And) else ' || '
+        return '(' + op.join(_bexpr(v) for v in n.values) + ')'
+    if isinstance(n, ast.UnaryOp) and isinstance(n.op, ast.Not):
+        return '(negb %s)' % _bexpr(n.operand)
+    raise TranslateError('_get_xsi_target: unrecognised condition %r' % t)
+
+
+def _block(stmts):
+    """statements -> Gallina term of type option bool: None = ValidationError, Some false = the declared
+    class, Some true = the registered class named by the marker"""
+    if not stmts:
+        raise TranslateError('_get_xsi_target: a path falls off the end of the function')
+    s, rest = stmts[0], stmts[1:]
+    t = _u(s)
+    if t == 'return cls':
+        return '(Some false)'
+    if t == 'return newclass':
+        return '(Some true)'
+    if t == 'raise ValidationError(xsi_type)':
+        return 'None'
+    if isinstance(s, ast.If):
+        return '(if %s then %s else %s)' % (_bexpr(s.test), _block(list(s.body) + rest), _block(list(s.orelse) + rest))
+    raise TranslateError('_get_xsi_target: unrecognised statement %r' % t)
+
+
+def xsi_target(repo):
+    """_get_xsi_target as a decision function of five facts about (declared class, registered class)"""
+    tree = _parse(repo, 'spyne/protocol/xml.py')
+    try:
+        fn = find_function(tree, ['XmlDocument', '_get_xsi_target'])
+    except TranslateError:
+        # the tree without the helper: whatever the registry returns is taken
+        return '(Some true)'
+    if [a.arg for a in fn.args.args] != ['cls', 'newclass', 'xsi_type'] or \
+                                    [_u(d) for d in fn.decorator_list] != ['staticmethod']:
+        raise TranslateError('_get_xsi_target: unrecognised signature')
+    st = _stmts(fn)
+    if [_u(x) for x in st[:2]] != ["sup = getattr(cls, '__orig__', None) or cls",
+                                   "sub = getattr(newclass, '__orig__', None) or newclass"]:
+        raise TranslateError('_get_xsi_target: sup / sub are not the __orig__ of the two classes')
+    return _block(st[2:])
 
 
 def memberless_base(repo):
@@ -243,5 +298,9 @@ def generate(repo):
             type_decl(repo), type_keep(repo), xsi_guard(repo), memberless_base(repo), soap_inplace(repo)]
     text = ('(** GENERATED by harness/translate/c16shape.py from the working tree; do not edit. *)\n'
             'From SpyneV Require Import C16.Model.\n'
-            'Definition shape_src : xshape := mkshape %s.\n' % ' '.join(b(v) for v in vals))
+            'Definition shape_src : xshape := mkshape %s.\n'
+            '(** XmlDocument._get_xsi_target: None = ValidationError, Some false = the declared class,\n'
+            '    Some true = the registered class the marker names *)\n'
+            'Definition xsi_target_src (same_orig sup_array same_key sup_complex sub_of : bool) : option bool :=\n  %s.\n'
+            % (' '.join(b(v) for v in vals), xsi_target(repo)))
     return {'C16Shape.v': text}
